@@ -237,13 +237,62 @@ func runHighlightAPI(r *ev.Run, wd *watchdog, workers int, nIdx, nDocs, nQueries
 			slot := <-sem
 			defer func() { sem <- slot }()
 			g := r.Rng(fmt.Sprintf("hl-index-%d", ix))
-			hlOneIndex(r, wd, slot, g, ix, sts, nDocs, nQueries)
+			hlOneIndex(r, wd, slot, g, ix, sts, nDocs, nQueries, nil)
 		}(ix)
+	}
+	// fixed regression scenarios, each on a scorch (ix%3==1) and an upsidedown (ix%3==2) index of its own
+	for k := range hlScenarios {
+		for e := 0; e < 2; e++ {
+			wg.Add(1)
+			go func(k, e int) {
+				defer wg.Done()
+				slot := <-sem
+				defer func() { sem <- slot }()
+				ix := 1000 + 3*k + 1 + e
+				hlOneIndex(r, wd, slot, r.Rng(fmt.Sprintf("hl-index-%d", ix)), ix, sts, 0, 0, &hlScenarios[k])
+			}(k, e)
+		}
 	}
 	wg.Wait()
 }
 
-func hlOneIndex(r *ev.Run, wd *watchdog, slot int, g *rng.Rand, ix int, sts []hlStyle, nDocs, nQueries int) {
+// A fixed scenario: exactly these documents (indexed in this order) and these queries.
+type hlScenario struct {
+	what    string
+	docs    []map[string]interface{}
+	queries []func() (query.Query, string, string) // query, description, field
+}
+
+var hlScenarios = []hlScenario{
+	{
+		// PhraseSearcher hands the same ArrayPositions slice to several FieldTermLocations; the recycled
+		// DocumentMatch then has two slots sharing one backing array and the next term match written into
+		// it reports a location with the array positions of another one ("al" of "basketballs" [21,32) in
+		// element 0 reported at array positions [1]).
+		what: "phrase searcher aliases ArrayPositions",
+		docs: []map[string]interface{}{
+			{"f_wsng": []interface{}{"ball ballgame"}},
+			{"f_wsng": []interface{}{"ballgame basketballs"}},
+			{"f_wsng": []interface{}{"alps"}},
+			{"f_wsng": []interface{}{"alps"}},
+			{"f_wsng": []interface{}{"ballgame basketballs basketballs ballgame", "game ball"}},
+		},
+		queries: []func() (query.Query, string, string){
+			func() (query.Query, string, string) {
+				m := bleve.NewMatchQuery("ballgame")
+				m.SetField("f_wsng")
+				p := bleve.NewMatchPhraseQuery("ballgame ball")
+				p.SetField("f_wsng")
+				return bleve.NewDisjunctionQuery(m, p), `or(match(f_wsng:"ballgame"),match_phrase(f_wsng:"ballgame ball"))`, "f_wsng"
+			},
+		},
+	},
+}
+
+func hlOneIndex(r *ev.Run, wd *watchdog, slot int, g *rng.Rand, ix int, sts []hlStyle, nDocs, nQueries int, fixed *hlScenario) {
+	if fixed != nil {
+		nDocs, nQueries = len(fixed.docs), len(fixed.queries)
+	}
 	im := bleve.NewIndexMapping()
 	must := func(err error) bool {
 		if err != nil {
@@ -290,11 +339,15 @@ func hlOneIndex(r *ev.Run, wd *watchdog, slot int, g *rng.Rand, ix int, sts []hl
 	batch := idx.NewBatch()
 	for d := 0; d < nDocs; d++ {
 		doc := &hlDoc{id: fmt.Sprintf("d%03d", d), fields: map[string]interface{}{}}
-		for _, fd := range hlFields {
-			if g.Chance(1, 5) {
-				continue // missing field
+		if fixed != nil {
+			doc.fields = fixed.docs[d]
+		} else {
+			for _, fd := range hlFields {
+				if g.Chance(1, 5) {
+					continue // missing field
+				}
+				doc.fields[fd.name] = hlValue(g, fd, 0)
 			}
-			doc.fields[fd.name] = hlValue(g, fd, 0)
 		}
 		docs[doc.id] = doc
 		r.Journal(map[string]any{"highlight_index": ix, "engine": engine, "doc": doc.id, "fields": quoteFields(doc.fields)})
@@ -309,7 +362,7 @@ func hlOneIndex(r *ev.Run, wd *watchdog, slot int, g *rng.Rand, ix int, sts []hl
 			return
 		}
 	}
-	if ix%3 == 0 || ix%3 == 2 {
+	if fixed == nil && (ix%3 == 0 || ix%3 == 2) {
 		for id, fields := range hlRegressionDocs {
 			docs[id] = &hlDoc{id: id, fields: fields}
 			if !must(batch.Index(id, fields)) {
@@ -330,7 +383,7 @@ func hlOneIndex(r *ev.Run, wd *watchdog, slot int, g *rng.Rand, ix int, sts []hl
 
 	var stt hlStats
 	nReg := 0
-	if ix%3 == 0 || ix%3 == 2 { // one scorch and one upsidedown index carry the regression scenario
+	if fixed == nil && (ix%3 == 0 || ix%3 == 2) { // scorch and upsidedown indexes carry the regression documents
 		nReg = len(hlRegressionQueries)
 	}
 	for qi := 0; qi < nQueries+nReg; qi++ {
@@ -340,7 +393,11 @@ func hlOneIndex(r *ev.Run, wd *watchdog, slot int, g *rng.Rand, ix int, sts []hl
 		var qdesc string
 		st := sts[gq.Intn(len(sts))]
 		hf := "all-matching"
-		if qi >= nQueries {
+		if fixed != nil {
+			var fname string
+			q, qdesc, fname = fixed.queries[qi]()
+			fd = *fieldNamed(fname)
+		} else if qi >= nQueries {
 			rq := hlRegressionQueries[qi-nQueries]
 			mq := bleve.NewMatchQuery(rq.match)
 			mq.SetField(rq.field)
@@ -355,7 +412,7 @@ func hlOneIndex(r *ev.Run, wd *watchdog, slot int, g *rng.Rand, ix int, sts []hl
 		}
 		req := bleve.NewSearchRequestOptions(q, 25, 0, false)
 		req.Highlight = bleve.NewHighlightWithStyle(st.name)
-		if qi < nQueries && gq.Chance(1, 2) {
+		if fixed == nil && qi < nQueries && gq.Chance(1, 2) {
 			req.Highlight.AddField(fd.name)
 			hf = fd.name
 		}
@@ -408,7 +465,7 @@ func hlOneIndex(r *ev.Run, wd *watchdog, slot int, g *rng.Rand, ix int, sts []hl
 						stt.nontrivial++
 					}
 					if verdict != "" {
-						w := map[string]any{"engine": engine, "query": qdesc, "style": st.name, "fragment_size": st.size, "field": fname, "analyzer": fdd.analyzer,
+						w := map[string]any{"highlight_index": ix, "query_index": qi, "hit": hit.ID, "engine": engine, "query": qdesc, "style": st.name, "fragment_size": st.size, "field": fname, "analyzer": fdd.analyzer,
 							"fragment_quoted": strconv.Quote(frag), "detail": detail, "stored_value": quoteValue(doc.fields[fname]), "locations": locString(hit.Locations[fname])}
 						r.Violation("highlight/"+verdict+"/"+fdd.analyzer, fmt.Sprintf("field %s (%s), style %s: %s; fragment %s", fname, fdd.analyzer, st.name, detail, strconv.Quote(frag)), w)
 					} else if marks > 0 && mb {
@@ -418,7 +475,7 @@ func hlOneIndex(r *ev.Run, wd *watchdog, slot int, g *rng.Rand, ix int, sts []hl
 				// the reported locations themselves must point into the stored value
 				if v, d := checkLocations(*fdd, els, hit.Locations[fname]); v != "" {
 					r.Violation("location/"+v+"/"+fdd.analyzer, fmt.Sprintf("field %s (%s): %s", fname, fdd.analyzer, d),
-						map[string]any{"engine": engine, "query": qdesc, "field": fname, "detail": d, "stored_value": quoteValue(doc.fields[fname]), "locations": locString(hit.Locations[fname])})
+						map[string]any{"highlight_index": ix, "query_index": qi, "hit": hit.ID, "engine": engine, "query": qdesc, "field": fname, "detail": d, "stored_value": quoteValue(doc.fields[fname]), "locations": locString(hit.Locations[fname])})
 				}
 			}
 		}
